@@ -63,10 +63,13 @@ package peer
 
 //@ func (ID).ExtractPublicKey
 //@   ensures ret1 == nil ==> ret0 != nil && uvarintVal(id) == 0 && pubKeyPBok(mhDigest(id)) && rawPub(ret0) == pubKeyFromPB(mhDigest(id))
+// ... and the ID is the one derived from that key: no second spelling of an ID yields the key (C01, C10, C28)
+//@   ensures ret1 == nil ==> id == mhEnc(0, pubKeyPB(rawPub(ret0)))
 
 //@ func (*SignedMsg).ExtractPubKey
 //@   ensures ret2 == nil ==> b58ok(m.FromPeerId) && ret1 == b58dec(m.FromPeerId) && ret1 != ""
 //@   ensures ret2 == nil ==> ret0 != nil && pubKeyPBok(mhDigest(ret1)) && rawPub(ret0) == pubKeyFromPB(mhDigest(ret1))
+//@   ensures ret2 == nil ==> ret1 == mhEnc(0, pubKeyPB(rawPub(ret0)))
 
 // C01: verification succeeds only for a message whose signature verifies, under the key
 // embedded in the claimed sender ID, over exactly signBody(context, type, digest(type, body)).
@@ -76,6 +79,8 @@ package peer
 //@   ensures ret2 == nil ==> len(m.Data) > 0 && len(m.FromPeerId) > 0
 //@   ensures ret2 == nil ==> b58ok(m.FromPeerId) && ret1 == b58dec(m.FromPeerId)
 //@   ensures ret2 == nil ==> ret0 != nil && pubKeyPBok(mhDigest(ret1)) && rawPub(ret0) == pubKeyFromPB(mhDigest(ret1))
+// the claimed sender is the ID derived from the key the signature verifies under: any other spelling of it is refused
+//@   ensures ret2 == nil ==> ret1 == mhEnc(0, pubKeyPB(rawPub(ret0)))
 //@   ensures ret2 == nil ==> m.Signature != nil && knownHash(m.Signature.HashType) && len(m.Signature.SigData) > 0
 //@   ensures ret2 == nil ==> edVerify(rawPub(ret0), signBody(encContext, m.Signature.HashType, digest(m.Signature.HashType, m.Data)), m.Signature.SigData)
 
